@@ -45,6 +45,8 @@ type rawTarget struct {
 	resetting atomic.Bool
 	conns  []net.Conn
 	seen   int
+	// the X-Request-Id of the last client request this target received
+	lastRID string
 }
 
 func (t *rawTarget) serve() {
@@ -77,6 +79,7 @@ func (t *rawTarget) handle(c net.Conn) {
 		t.mu.Lock()
 		mode := t.mode
 		t.seen++
+		t.lastRID = req.Header.Get("X-Request-Id")
 		t.mu.Unlock()
 		kind, arg, _ := strings.Cut(mode, ":")
 		switch kind {
@@ -264,6 +267,7 @@ func runFaults(t *testing.T, fx *fixtures, c verifCase, w *bufio.Writer) {
 				mode := kv["mode"]
 				rt.mu.Lock()
 				rt.mode, rt.refuse = mode, mode == "refuse"
+				rt.lastRID = ""
 				rt.mu.Unlock()
 				logs.mu.Lock()
 				logs.recs = nil
@@ -388,8 +392,14 @@ func runFaults(t *testing.T, fx *fixtures, c verifCase, w *bufio.Writer) {
 						bytesStr = "=body"
 					}
 					ridStr := "?"
+					rt.mu.Lock()
+					targetSaw := rt.lastRID
+					rt.mu.Unlock()
 					if fmt.Sprint(r["request_id"]) != id {
 						ridStr = "WRONG:" + fmt.Sprint(r["request_id"])
+					} else if targetSaw != "" && targetSaw != id {
+						// the record names a request id the target never saw: the two can no longer be correlated
+						ridStr = "TARGET-SAW:" + targetSaw
 					}
 					logStr += fmt.Sprintf(" status=%v bytes=%v method=%v host=%v path=%v query=%v rid=%s service=%v target=%v%s",
 						r["status"], bytesStr, r["method"], r["host"], hexB([]byte(fmt.Sprint(r["path"]))), hexB([]byte(fmt.Sprint(r["query"]))),
